@@ -125,7 +125,7 @@ func (g *probeGen) Generate(proxy *model.Proxy, w *model.WatchedResource, req *m
 		}
 		g.pc.mu.Unlock()
 		if incoherent {
-			st := model.VerifC06Snapshot(g.pc.XdsCache, model.CDSType)
+			st := model.VerifC06Snapshot(g.pc.w.rec.XdsCache, model.CDSType) // the real XdsCacheImpl under the wrappers
 			g.mu.Lock()
 			for _, e := range st.Store {
 				if e.Token == uint64(req.Start.UnixNano()) {
